@@ -424,19 +424,32 @@ def main(argv=None):
         procs.append((p, parent))
     frags = []
     fatal = []
+    # Watchdog: a worker that has not reported long after its own budget is stuck (seen under heavy load:
+    # a process-shared lock inherited over fork); it is terminated and its shard counted as lost, which makes
+    # the run inconclusive for that shard but never a violation.
+    t_give_up = time.time() + check.budget_s(tier) * 3 + 300
+    lost = 0
     for p, conn in procs:
         try:
-            d = conn.recv()
+            if conn.poll(max(1.0, t_give_up - time.time())):
+                d = conn.recv()
+            else:
+                p.terminate()
+                d = {"lost": True}
         except EOFError:
             d = {"fatal": "worker died without reporting (exit %s)" % p.exitcode}
-        p.join()
-        if "fatal" in d:
+        p.join(10)
+        if d.get("lost"):
+            lost += 1
+        elif "fatal" in d:
             fatal.append(d["fatal"])
         else:
             frags.append(d)
-    if fatal:
-        print("HARNESS-ERROR: worker failure\n" + fatal[0], file=sys.stderr)
+    if fatal or lost > nshards // 2:
+        print("HARNESS-ERROR: worker failure (%d lost)\n" % lost + (fatal[0] if fatal else ""), file=sys.stderr)
         return 2
+    if lost:
+        print("HARNESS-WARNING: %d of %d shards did not report in time and were stopped" % (lost, nshards), file=sys.stderr)
 
     merged = {
         "evaluations": sum(f["evaluations"] for f in frags) + n_replay,
@@ -507,7 +520,8 @@ def main(argv=None):
         "known_findings_hit": dict(merged["known_hit"]),
         "known_findings_still_reproducing": kf_open,
         "harness_errors": int(merged["labels"].get("harness_error", 0)),
-        "inconclusive_budget": bool(merged["budget_hit"]),
+        "inconclusive_budget": bool(merged["budget_hit"]) or lost > 0,
+        "shards_lost": lost,
         "shards": nshards,
     }
     try:
